@@ -504,7 +504,9 @@ class ArmiObject(metaclass=CompositeModelType):
         """
         self.p = other.p.__class__()
         for p, val in other.p.items():
-            self.p[p] = val
+            if p != "serialNum":
+                # serialNum is special: no two objects share one, the new collection keeps its own
+                self.p[p] = val
 
     def updateParamsFrom(self, new):
         """
